@@ -1888,7 +1888,7 @@ pub fn c07() -> CheckDef {
         families: vec![
             Family { name: "b_handshake_faults", world: "B", weight: 3, gen: c07_gen_faulty, oracles: c07_oracles, adversary: Some(c07_adv), keep_workload: true, custom: None,
                 what: "1-6 clients arriving within 3 s, loss/dup/reorder aimed at SYN, SYN-ACK, ACK and error frames, forged handshake frames from spoofed client and server addresses with nonces that differ from the genuine ones, replays of genuine handshake frames up to 20 s later, incompatible configurations, wrong-version SYNs, client crash and restart on the same address, a few reliable packets per connection" },
-            Family { name: "b_handshake_clean", world: "B", weight: 1, gen: c07_gen_clean, oracles: c07_oracles, adversary: None, keep_workload: false, custom: None,
+            Family { name: "b_handshake_clean", world: "B", weight: 1, gen: c07_gen_clean, oracles: c07_oracles, adversary: Some(c07_adv), keep_workload: false, custom: None,
                 what: "same population on a link that loses only a random subset of the first three datagrams of each handshake direction, or the first 4-10 of the server's 11 SYN-ACK transmissions (during which the server application may drop() the pending handshake, so that the client's next SYN starts it again): incompatible configurations must be refused with the matching error, compatible ones must connect on BOTH sides (retries of SYN, SYN-ACK and ACK complete the handshake), stay connected, and agree on sequence numbers and limits" },
         ],
         panic_is_violation: no_panics,
